@@ -470,3 +470,111 @@ Proof.
   - apply kp_pres. pres_go.
 Qed.
 End HD.
+
+(* ---- the administrative operations (all but the harness's direct seed) --------------------------- *)
+Lemma kp_admin C cfg O a (X : bytes -> Prop) U0 :
+  ~ is_seed a -> (forall pid pw, a = AUpdatePassword pid pw -> X pid) -> kp X U0 anyq (admin C cfg O a).
+Proof.
+  intros NS HX. unfold admin.
+  destruct a as [req|pid|pid|pid pw|pid|u rm|b k v|ck b j]; try (exfalso; apply NS; exact I);
+    change C with (e_C (mkEnv C cfg O null_request [] []));
+    repeat (kp_unfold; cbn beta iota zeta; kp_step kp_ext2); cbn beta; kp_side.
+  (* UpdatePassword: the saved record is filed under the exempt pid *)
+  apply pgood_exempt. cbn. rewrite Hpid. exact (HX pid pw eq_refl).
+Qed.
+
+(* ---- closed forms ------------------------------------------------------------------------------ *)
+(* every record that was there is still there and, outside X, carries the password it had *)
+Definition passwords_kept (X : bytes -> Prop) (U U' : list (bytes * user)) : Prop :=
+  forall p a, ulookup p U = Some a -> exists b, ulookup p U' = Some b /\ (X p \/ u_password b = u_password a).
+
+Lemma passwords_kept_refl X U : passwords_kept X U U.
+Proof. intros p a Ha. exists a. split; [exact Ha|right; reflexivity]. Qed.
+Lemma passwords_kept_trans X U1 U2 U3 : passwords_kept X U1 U2 -> passwords_kept X U2 U3 -> passwords_kept X U1 U3.
+Proof.
+  intros A B p a Ha. destruct (A p a Ha) as (b & Hb & Kb). destruct (B p b Hb) as (c & Hc & Kc).
+  exists c. split; [exact Hc|]. destruct Kb as [Kb|Kb]; [left; exact Kb|]. destruct Kc as [Kc|Kc]; [left; exact Kc|].
+  right. congruence.
+Qed.
+
+Lemma pinv_start X h : filed (h_st h) -> h_cuser h = None -> pinv X (s_users (h_st h)) h.
+Proof.
+  intros F Cx. split.
+  - exact F.
+  - auto.
+  - intros k b Hin. destruct F as [ND Ky]. right. intros a Ha. rewrite (Ky _ _ Hin), (in_ulookup _ _ _ ND Hin) in Ha.
+    inversion Ha; reflexivity.
+  - intros u Hu. congruence.
+Qed.
+Lemma pinv_end X U0 h : pinv X U0 h -> filed (h_st h) /\ passwords_kept X U0 (s_users (h_st h)).
+Proof.
+  intros [I1 I2 I3 I4]. split; [exact I1|].
+  intros p a Ha. destruct (ulookup p (s_users (h_st h))) as [b|] eqn:L.
+  - exists b. split; [reflexivity|]. pose proof (ulookup_in _ _ _ L) as Hin. destruct I1 as [_ Ky].
+    pose proof (I3 _ _ Hin) as G. unfold pgood in G. rewrite (Ky _ _ Hin) in G.
+    destruct G as [G|G]; [left; exact G|right; exact (G a Ha)].
+  - exfalso. apply (I2 p); [rewrite Ha; discriminate|exact L].
+Qed.
+
+Definition keeps_passwords (X : bytes -> Prop) {A} (m : M A) : Prop :=
+  forall h r h', filed (h_st h) -> h_cuser h = None -> m h = (r, h') ->
+    filed (h_st h') /\ passwords_kept X (s_users (h_st h)) (s_users (h_st h')).
+
+Lemma keeps_of_kp X {A} (Q : A -> Prop) (m : M A) : (forall U0, kp X U0 Q m) -> keeps_passwords X m.
+Proof.
+  intros H h r h' F Cx Eq. destruct (H _ h r h' (pinv_start X h F Cx) Eq) as [I' _].
+  exact (pinv_end _ _ _ I').
+Qed.
+
+Definition nobody (p : bytes) : Prop := False.
+
+Lemma serve_keeps_passwords E : ~ recover_end_req (e_req E) -> keeps_passwords nobody (serve E).
+Proof. intros NR. apply (keeps_of_kp _ anyq). intros U0. apply kp_serve. exact NR. Qed.
+
+(* ---- one step ------------------------------------------------------------------------------------ *)
+(* the actions that can change the stored password of account U *)
+Definition changes_password (U : bytes) (a : action) : Prop :=
+  match a with
+  | AUpdatePassword pid _ => pid = U
+  | ASeed u _ => u_pid u = U
+  | AReq req => recover_end_req req
+  | _ => False
+  end.
+
+Lemma seed_keeps U su (l : list (bytes * user)) a :
+  u_pid su <> U -> ulookup U l = Some a -> ulookup U (uput (u_pid su) su l) = Some a.
+Proof. intros N H. rewrite ulookup_uput_neq by congruence. exact H. Qed.
+
+Lemma step_keeps_password C cfg w a O U u :
+  filed (w_st w) -> ~ changes_password U a ->
+  ulookup U (s_users (w_st w)) = Some u ->
+  exists u', ulookup U (s_users (w_st (fst (step C cfg w a O)))) = Some u' /\ u_password u' = u_password u.
+Proof.
+  intros F NC Hu.
+  assert (ADM : forall r h, ~ is_seed a -> (forall pid pw, a = AUpdatePassword pid pw -> pid <> U) ->
+            admin C cfg O a (init_hst (w_st w) O) = (r, h) ->
+            exists u', ulookup U (s_users (h_st h)) = Some u' /\ u_password u' = u_password u).
+  { intros r h NS HX Ea.
+    assert (K : keeps_passwords (fun p => p <> U) (admin C cfg O a)).
+    { apply (keeps_of_kp _ anyq). intros U0. apply kp_admin; [exact NS|exact HX]. }
+    destruct (K (init_hst (w_st w) O) _ _ F eq_refl Ea) as [_ Kp]. destruct (Kp U u Hu) as (b & Hb & [Kb|Kb]); [contradiction Kb; reflexivity|].
+    exists b. split; [exact Hb|exact Kb]. }
+  unfold step. destruct a as [req|pid|pid|pid pw|pid|su rm|b k v|ck b j].
+  - destruct (serve _ _) as [r0 h] eqn:Sv. cbn [changes_password] in NC.
+    destruct (serve_keeps_passwords (mkEnv C cfg O req (jar_get (q_browser req) (w_cook w)) (jar_get (q_browser req) (w_sess w)))
+                NC (init_hst (w_st w) O) _ _ F eq_refl Sv) as [_ Kp].
+    destruct (Kp U u Hu) as (b & Hb & [[]|Kb]). exists b.
+    destruct (h_out h); cbn [fst w_st set]; (split; [exact Hb|exact Kb]).
+  - destruct (admin _ _ _ _ _) as [r0 h] eqn:Ea. cbn [fst w_st set].
+    apply (ADM r0 h); [intros []|intros ? ? Q; discriminate Q|reflexivity].
+  - destruct (admin _ _ _ _ _) as [r0 h] eqn:Ea. cbn [fst w_st set].
+    apply (ADM r0 h); [intros []|intros ? ? Q; discriminate Q|reflexivity].
+  - destruct (admin _ _ _ _ _) as [r0 h] eqn:Ea. cbn [fst w_st set].
+    apply (ADM r0 h); [intros []|intros ? ? Q; inversion Q; subst; exact NC|reflexivity].
+  - destruct (admin _ _ _ _ _) as [r0 h] eqn:Ea. cbn [fst w_st set].
+    apply (ADM r0 h); [intros []|intros ? ? Q; discriminate Q|reflexivity].
+  - cbn [admin modify fst snd w_st set h_st init_hst s_users]. exists u. split; [|reflexivity].
+    cbn [changes_password] in NC. apply seed_keeps; assumption.
+  - cbn [fst w_st set]. exists u. split; [exact Hu|reflexivity].
+  - destruct ck; cbn [fst w_st set]; exists u; (split; [exact Hu|reflexivity]).
+Qed.
